@@ -21,6 +21,86 @@ S_CODECS = ['\n', '\r', '\x0b', '\x0c', '\x1c', '\x1d', '\x1e', '\x85', '\u2028'
 S_BUILTIN = ['\n', '\r']
 
 
+def _regex_class(pattern):
+    """Set of characters matched by a pattern that is a single character class (or alternation of literals); None otherwise."""
+    try:
+        import re._parser as sre
+    except ImportError:            # python < 3.11
+        import sre_parse as sre
+    try:
+        p = sre.parse(pattern)
+    except Exception:
+        return None
+    if len(p) != 1:
+        return None
+    op, av = p[0]
+    out = set()
+    if str(op) == 'IN':
+        for o2, a2 in av:
+            if str(o2) == 'LITERAL':
+                out.add(chr(a2))
+            elif str(o2) == 'RANGE':
+                out.update(chr(i) for i in range(a2[0], a2[1] + 1))
+            else:
+                return None
+        return out
+    if str(op) == 'LITERAL':
+        return {chr(av)}
+    return None
+
+
+def _any_guard(t, pw, fn):
+    """Characters rejected by a test of the form any(<pred(c)> for c in pw), any(c in pw for c in <literal>) or
+    <compiled class>.search(pw); None if the test is not of such a form.  A regex applied with match()/fullmatch() only looks
+    at the start of the string and rejects nothing in general."""
+    if isinstance(t, ast.Call) and call_name(t) == 'any' and len(t.args) == 1 and isinstance(t.args[0], (ast.GeneratorExp, ast.ListComp)) \
+            and len(t.args[0].generators) == 1 and not t.args[0].generators[0].ifs:
+        g = t.args[0].generators[0]
+        e = t.args[0].elt
+        if isinstance(g.target, ast.Name) and U(g.iter) == pw and isinstance(e, ast.Compare) and len(e.ops) == 1:
+            c = g.target.id
+            l, r, op = e.left, e.comparators[0], e.ops[0]
+
+            def bound(x):
+                if isinstance(x, ast.Call) and call_name(x) == 'chr' and isinstance(const(x.args[0]), int):
+                    return const(x.args[0])
+                if isinstance(const(x), str) and len(const(x)) == 1:
+                    return ord(const(x))
+                return None
+            if U(l) == c and bound(r) is not None and isinstance(op, (ast.Lt, ast.LtE)):
+                return {chr(i) for i in range(0, bound(r) + (1 if isinstance(op, ast.LtE) else 0))}
+            if U(l) == 'ord(%s)' % c and isinstance(const(r), int) and isinstance(op, (ast.Lt, ast.LtE)):
+                return {chr(i) for i in range(0, const(r) + (1 if isinstance(op, ast.LtE) else 0))}
+            if U(l) == c and isinstance(op, ast.In) and isinstance(r, (ast.List, ast.Tuple, ast.Set, ast.Constant)):
+                vals = [const(x) for x in r.elts] if not isinstance(r, ast.Constant) else list(r.value)
+                return {v for v in vals if isinstance(v, str) and len(v) == 1}
+        if isinstance(g.target, ast.Name) and isinstance(g.iter, (ast.List, ast.Tuple, ast.Set, ast.Constant)) \
+                and isinstance(e, ast.Compare) and len(e.ops) == 1 and isinstance(e.ops[0], ast.In) and U(e.left) == g.target.id \
+                and U(e.comparators[0]) == pw:
+            vals = [const(x) for x in g.iter.elts] if not isinstance(g.iter, ast.Constant) else list(g.iter.value)
+            return {v for v in vals if isinstance(v, str) and len(v) == 1}
+    if isinstance(t, ast.Call) and isinstance(t.func, ast.Attribute) and t.func.attr in ('search', 'match', 'fullmatch') \
+            and len(t.args) >= 1 and U(t.args[-1]) == pw:
+        pat = None
+        if isinstance(t.func.value, ast.Name) and t.func.value.id == 're' and len(t.args) == 2:
+            pat = const(t.args[0])
+        else:
+            # a compiled pattern bound once at module level or locally: NAME = re.compile('<pattern>')
+            nm = U(t.func.value)
+            for root in (fn, getattr(fn, '_module_tree', None)):
+                if root is None:
+                    continue
+                for n in ast.walk(root):
+                    if isinstance(n, ast.Assign) and len(n.targets) == 1 and U(n.targets[0]) == nm and isinstance(n.value, ast.Call) \
+                            and call_name(n.value) == 're.compile' and n.value.args:
+                        pat = const(n.value.args[0])
+        if isinstance(pat, str):
+            cls = _regex_class(pat)
+            if cls is not None:
+                return cls if t.func.attr == 'search' else set()
+    return None
+
+
 def reject_set(fn):
     """Characters check_valid rejects: set of single characters, extracted from its guard forms."""
     ps = params(fn)
@@ -35,6 +115,12 @@ def reject_set(fn):
                 rej.add(const(t.left))
             elif U(t) in ('len(%s) == 0' % pw, 'not %s' % pw):
                 pass
+            elif 'splitlines()' in U(t) and U(t).replace(' ', '') in ('len(%s.splitlines())>1' % pw, 'len(%s.splitlines())!=1' % pw):
+                # understood, and insufficient: splitlines() does not report a separator at the END of the string, so a value
+                # ending in U+2028 / U+0085 / ... passes; the guard guarantees the rejection of no character
+                pass
+            elif _any_guard(t, pw, fn) is not None:
+                rej.update(_any_guard(t, pw, fn))
             else:
                 unknown.append(U(t))
         elif isinstance(st, ast.For) and isinstance(st.iter, ast.Call) and call_name(st.iter) == 'range' \
@@ -61,6 +147,7 @@ def reject_set(fn):
 def r1_separator_inclusion(ctx, rule):
     qual = TFI + 'check_valid'
     fn = ctx.fn(qual)
+    fn._module_tree = ctx.repo.modules[qual.partition('::')[0]].tree
     rej, unknown = reject_set(fn)
     # reader kinds of password-derived files
     mods = ctx.resolver.closure(['pcfg_guesser.py', 'password_scorer.py', 'prince_ling.py'])
@@ -77,7 +164,10 @@ def r1_separator_inclusion(ctx, rule):
     if not kinds:
         ctx.unk(rule, qual, 'no reader of password-derived files found')
         return
-    if missing:
+    if missing and unknown:
+        ctx.unk(rule, qual, 'check_valid has guards that are not understood (%s); cannot tell whether %s are rejected'
+                % (unknown[:3], ['U+%04X' % ord(c) for c in missing][:6]))
+    elif missing:
         for ch in missing:
             ctx.bad(rule, qual, 'accepts U+%04X' % ord(ch),
                     'the ruleset files are line- and TAB-separated and are read back by %s readers, which split lines on this '
